@@ -19,7 +19,7 @@ import threading
 import time as _real_time
 import traceback
 
-BASE_TIME = 1700000000.0
+BASE_TIME = 100000.0      # small on purpose: doubles keep microsecond resolution around it
 
 
 class WorldKilled(BaseException):
@@ -201,6 +201,9 @@ class World(object):
 
     # ------------------------------------------------------------------ time / timers
     def time(self):
+        # reading the clock takes (virtual) time: a loop such as ``while remaining >= 0: wait(remaining)`` must
+        # make progress exactly as it does on a real clock
+        self.now += 1e-6
         return BASE_TIME + self.now
 
     def add_timer(self, delay, fn, label='timer'):
@@ -362,6 +365,21 @@ class World(object):
         if self.now < t:
             self.now = t
 
+    def inspect(self):
+        """Context manager for oracles: the calling (main) thread keeps the baton - no preemption at lock
+        acquisitions - so the state it reads is the quiescent state it asked for."""
+        w = self
+
+        class _Inspect(object):
+            def __enter__(self_):
+                self_.saved = w.preempt
+                w.preempt = False
+
+            def __exit__(self_, *a):
+                w.preempt = self_.saved
+                return False
+        return _Inspect()
+
     def pending_work(self):
         """Is anything other than main runnable or scheduled?"""
         for t in self.threads:
@@ -469,7 +487,12 @@ class Prims(object):
                     self.owner, self.count = me, 1
                 return ok
 
+            hooks = None          # callables run at the outermost release while the lock is still held
+
             def release(self):
+                if self.count == 1 and self.hooks and not w.dead:
+                    for h in self.hooks:
+                        h()
                 self.count -= 1
                 if self.count <= 0:
                     self.owner, self.count = None, 0
